@@ -170,8 +170,9 @@ PoolDesc(e) == [x \in DOMAIN e \ {"d"} |-> e[x]]
 Desc(d) == LET es == {e \in Pool : e.d.id = d.id} IN
            IF es = {} THEN [k |-> "unknown"]
            ELSE LET g == {e \in es : e.k = "gen"} IN PoolDesc(IF g # {} THEN CHOOSE e \in g : TRUE ELSE CHOOSE e \in es : TRUE)
-AdvAddDisc == Move("AddDisc") /\ Len(cur.discs) < MaxDiscs /\ \E e \in Pool :
-                 /\ Rewrite(ReMsg(cur.jwt, Append(cur.discs, e.d), cur.kb), [a |-> "AddDisc", e |-> PoolDesc(e)])
+\* (at the end or in front: what precedes a disclosure in the list must not affect it - seeded W6_2m2)
+AdvAddDisc == Move("AddDisc") /\ Len(cur.discs) < MaxDiscs /\ \E e \in Pool, pos \in {"front", "end"} :
+                 /\ Rewrite(ReMsg(cur.jwt, IF pos = "end" THEN Append(cur.discs, e.d) ELSE <<e.d>> \o cur.discs, cur.kb), [a |-> "AddDisc", e |-> PoolDesc(e), pos |-> pos])
                  /\ UNCHANGED ledger
 AdvDropDisc == Move("DropDisc") /\ \E i \in DOMAIN cur.discs :
                  Rewrite(ReMsg(cur.jwt, DropAt(cur.discs, i), cur.kb), [a |-> "DropDisc", d |-> Desc(cur.discs[i])]) /\ UNCHANGED ledger
